@@ -131,6 +131,19 @@ func c01prop(r *simkit.Run) {
 			w.sim.RunTask(w.opNext().task)
 		}
 	}
+	if w.faultyLogger && rapid.IntRange(0, 2).Draw(rt, "log-sink-breaks-in-the-prior-history") == 0 {
+		// selections and requests during which the caller's log sink breaks once: the call that was logging is lost;
+		// whatever it had consumed of the rotation, what follows is a rotation over the pool as it is
+		w.logLeft = rapid.IntRange(1, 12).Draw(rt, "log-call-that-panics")
+		for k := rapid.IntRange(1, 12).Draw(rt, "selections-with-a-broken-sink"); k > 0; k-- {
+			if rapid.Bool().Draw(rt, "through-servehttp") {
+				w.sim.RunTask(w.opServe(0, "").task)
+			} else {
+				w.sim.RunTask(w.opNext().task)
+			}
+		}
+		w.logLeft = -1
+	}
 	w.check()
 	w.verifyQuiescent("before the selection phase")
 
